@@ -429,9 +429,8 @@ def pyref_type(t, want_cells=False):
             raw = r["raw"][j]
             if raw["key"] == "err":
                 return {} if want_cells else "internal"
-            # a second chi2-based measure receives chi2_statistic of the first one: UnboundLocalError
-            if k in ("cramerv", "tschuprowt") and any(p in ("chi2", "cramerv", "tschuprowt") for p in ms[:j]):
-                return {} if want_cells else "internal"
+            # a second chi2-based measure is computed from the chi2 statistic of the first one
+            # (/repo 406fe09): same value as the stand-alone measure
             if raw["key"] is None or (FALSY_NAN[k] and raw["key"] == 0 and raw["zero_nan"]):
                 cells.append("nan")
                 active = False
@@ -524,8 +523,8 @@ def spec_failures(case, tabs, sel):
                 continue  # fails thresh_nan / thresh_mode
             for j, k in enumerate(ms):
                 s = r["spec"][j]
-                if s is None or s < t["sthr"][j]:
-                    continue  # undefined or below the minimum association
+                if s is None or s <= 0 or s < t["sthr"][j]:
+                    continue  # undefined, no association at all, or below the minimum association
                 better = [g for g in out if row[g]["spec"][j] is not None and row[g]["spec"][j] >= s]
                 if len(better) >= t["n_best"]:
                     continue
@@ -873,6 +872,10 @@ def gen_case(rng, kind=None):
                             ("thresh_tschuprowt", [0.3, 5.0])):
                 if rng.random() < 0.4:
                     kw[k] = rng.choice(vals)
+        # make the second measure of a pair reachable: large threshold on the first one
+        for lst in (qm, lm):
+            if lst and len(lst) == 2 and rng.random() < 0.5:
+                kw[THRESH_KW[lst[0]]] = rng.choice([1e9, 5.0 if lst[0] in ("R", "cramerv", "tschuprowt") else 1e9])
     else:
         if r < 0.3:
             qm = ["distance"]
@@ -894,6 +897,31 @@ def gen_case(rng, kind=None):
     if rng.random() < 0.03:
         n_best = rng.choice([0, nf + 2])
     return mk_case(task, y, quanti, quali, n_best, qm, lm, qf, lf, kw)
+
+
+def gen_boundary_case(rng):
+    """associations exactly equal to thresh_corr without a tie of the ranking measure: a
+    qualitative feature and a coarsening of it (Cramer's V = 1), a quantitative feature and its
+    cube (|rho| = 1, different R); thresh_corr = 1 (default or explicit)"""
+    n = rng.choice([12, 20, 30, 45])
+    y = gen_y(rng, n, "classification")
+    ys = [str(v) for v in y]
+    alt = sorted(set(ys))
+    x = [(v if rng.random() > 0.25 else rng.choice(alt)) + rng.choice(["a", "b"]) for v in ys]
+    levels = sorted(set(x))
+    mp = {v: (levels[0] if i < 2 else v) for i, v in enumerate(levels)}
+    z = [mp[v] for v in x]
+    w = ["abc"[rng.randrange(3)] for _ in range(n)]
+    quali = [x, z, w]
+    rng.shuffle(quali)
+    yn = ynum(y)
+    q = [v * 2 + rng.randint(0, 3) for v in yn]
+    quanti = [q, [v ** 3 for v in q], [rng.randint(0, 9) for _ in range(n)]]
+    rng.shuffle(quanti)
+    kw = {} if rng.random() < 0.5 else {"thresh_corr": 1.0}
+    return mk_case("classification", y, quanti, quali, rng.choice([2, 3, 6]), ["R"],
+                   [rng.choice(["cramerv", "tschuprowt"])], [rng.choice(["spearman", "pearson"])],
+                   [rng.choice(["cramerv", "cramerv", "tschuprowt"])], kw)
 
 
 def mk_case(task, y, quanti, quali, n_best, qm, lm, qf, lf, kw, qnames=None, lnames=None):
@@ -924,8 +952,7 @@ def coq_type(t, sel):
         ds.append(lcm_den(vals))
     mspecs = []
     for j, k in enumerate(ms):
-        crash = k in ("cramerv", "tschuprowt") and any(p in ("chi2", "cramerv", "tschuprowt") for p in ms[:j])
-        mspecs.append(f"mkM {C.cbool(RANKING[k])} {C.cbool(FALSY_NAN[k])} {C.cbool(crash)} "
+        mspecs.append(f"mkM {C.cbool(RANKING[k])} {C.cbool(FALSY_NAN[k])} "
                       f"{C.cZ(t['mthr'][j] * dm[j])} {C.cZ(t['sthr'][j] * ds[j])}")
     rows = []
     for r in t["rows"]:
@@ -1022,8 +1049,9 @@ class C14(Prop):
         return cs
 
     def generate(self, rng, tier):
-        n = 320 if tier == "quick" else 4000
-        return [gen_case(rng) for _ in range(n)]
+        n = 300 if tier == "quick" else 4000
+        nb = 30 if tier == "quick" else 300
+        return [gen_case(rng) for _ in range(n)] + [gen_boundary_case(rng) for _ in range(nb)]
 
     def search_cases(self, rng, neighbours, rnd):
         return [gen_case(rng) for _ in range(150)]
@@ -1198,7 +1226,7 @@ class C14(Prop):
 
     def distribution(self, cases, outs):
         d = {"tasks": {}, "rows": {}, "n_quanti": {}, "n_quali": {}, "errors": {}, "returned": {},
-             "with_nan": 0, "multi_measure": 0, "with_exact_ties": 0}
+             "with_nan": 0, "multi_measure": 0}
         for c, o in zip(cases, outs):
             d["tasks"][c["task"]] = d["tasks"].get(c["task"], 0) + 1
             d["rows"][c["n"]] = d["rows"].get(c["n"], 0) + 1
